@@ -9,6 +9,7 @@ SCALARS = {'NumCPUs': [1, 2, 8, 16, 0], 'CookieAuthentication': [True, False], '
            'AvoidDiskWrites': [True, False], 'ClientUseIPv6': [-1, 0, 1], 'BandwidthRate': [1024, 65536, 1073741824],
            'PathBiasNoticeRate': [0.5, 0.25, 0.7, 1.0], 'DataDirectory': ['/var/lib/tor', '/tmp/t or', 'C:\\Users\\tor', '\\\\host\\share\\tor dir'], 'KeepalivePeriod': [300, 60],
            'OwningControllerFD': [-1, 7]}
+ASSIGN_ONLY = {'Nickname': ['erin\n'], 'ContactInfo': ['two\nlines', 'cr\r\n', '\n']}
 LIST_ITEMS = ['notice stdout', 'debug file /x y', '9050', '9050 IsolateDestAddr', 'unix:/s', 'reject *:25', 'accept *:*', 'a', '']
 # values with backslashes and quotes (Tor reports them raw in GETCONF / CONF_CHANGED; SETCONF has to escape them)
 LIST_ITEMS_ESC = ['notice file \\\\host\\share\\x.log', 'info file C:\\tor\\"my log".txt']
@@ -132,7 +133,8 @@ def gen_ops(rng, store, defaults, *, n_ops, conf_events, aliasing, options=None,
                 continue
         if r < 0.22 and scalars:
             n = rng.choice(scalars)
-            v = rng.choice(SCALARS[n])
+            # (texts an application may assign but Tor never reports on one line: a line end at the end or inside)
+            v = rng.choice(SCALARS[n] + ASSIGN_ONLY.get(n, []))
             if inflight and cfg.wire_typed(tab.types[n], v) == last_assigned.get(n):
                 continue        # re-assigning the value that is in flight: whether it is re-sent is a don't-care
             last_assigned[n] = cfg.wire_typed(tab.types[n], v)
